@@ -8,6 +8,9 @@
     * `heldW`  — the part of `Inv.held` that survives a worker panic (`HeldW`): every stored entry is charged under
       its own key, and a charged id whose key is stored is the id of that stored entry;
     * `notPending` — no index entry carries the id of a put that is still on its way to the worker.
+
+  Also here, for C04: how the entry of one key, `nextId` and the pending ids evolve in one event (`evo_step`),
+  and what that means for a soft-deleted incarnation along a history (`buried_run`).
 -/
 import CachedProofs.Lemmas.Inv
 
@@ -532,5 +535,1626 @@ theorem ttlinv_resume {s s' : State} {out : Out} (t : TtlInv s) {c : Nat} (hr : 
         have e : s' = (shutdownSendBuf { s with pend := s.pend.del c } c).1 := by rw [hr]
         rw [e]
         exact ttlinv_shutdownSendBuf (t.frame f0) c
+
+/-! ### rewriting a stored entry in place: `delete` (soft flag) and `put_or_update` of a present key -/
+
+/-- A stored entry is rewritten in place (same id) and the index entries of its id are brought in line with its
+    new expiry; everything else stays. -/
+theorem TtlInv.retime {s s' : State} (t : TtlInv s) {k : Nat} {e e' : Entry} (hg : s.store.get? k = some e)
+    (hid : e'.id = e.id) (hlt : e.id < s.nextId) (hnp : e.id ∉ pendingIds s)
+    (hstore : s'.store = s.store.set k e') (hadm : s'.adm = s.adm) (hcfg : s'.cfg = s.cfg)
+    (hnext : s'.nextId = s.nextId) (hpend : pendingIds s' = pendingIds s)
+    (hnd : AMap.NoDup s'.ttl)
+    (hother : ∀ sh i, i ≠ e.id → s'.ttl.get? (sh, i) = s.ttl.get? (sh, i))
+    (hself : ∀ sh x, s'.ttl.get? (sh, e.id) = some x ↔ e'.expiry = some x ∧ sh = shardOf s.cfg x) : TtlInv s' := by
+  refine ⟨hnd, ?_, ?_, ?_, ?_, ?_, ?_, ?_⟩
+  · intro sh i x h
+    rw [hcfg]
+    by_cases hi : i = e.id
+    · subst hi; exact ((hself sh x).mp h).2
+    · rw [hother sh i hi] at h; exact t.shardOk sh i x h
+  · intro sh i x h
+    rw [hadm, hstore]
+    by_cases hi : i = e.id
+    · subst hi
+      exact Or.inr ⟨k, e', by simp, hid, ((hself sh x).mp h).1⟩
+    · rw [hother sh i hi] at h
+      rcases t.current sh i x h with h1 | ⟨k', e'', h1, h2, h3⟩
+      · exact Or.inl h1
+      · refine Or.inr ⟨k', e'', ?_, h2, h3⟩
+        have hk : k ≠ k' := by
+          intro heq; subst heq
+          rw [hg] at h1
+          simp only [Option.some.injEq] at h1
+          subst h1; exact hi h2.symm
+        rw [AMap.get?_set_other _ _ hk]; exact h1
+  · intro k' e'' x h hx
+    rw [hstore] at h
+    rw [hcfg]
+    rw [AMap.get?_set] at h
+    split at h
+    · simp only [Option.some.injEq] at h
+      subst h
+      rw [hid]
+      exact (hself _ x).mpr ⟨hx, rfl⟩
+    · rename_i hk
+      have hi : e''.id ≠ e.id := by
+        intro heq
+        exact hk (t.heldW.unique h hg heq).1.symm
+      rw [hother _ _ hi]
+      exact t.indexedU k' e'' x h hx
+  · intro sh sh' i x x' h h'
+    by_cases hi : i = e.id
+    · subst hi
+      obtain ⟨a1, a2⟩ := (hself sh x).mp h
+      obtain ⟨b1, b2⟩ := (hself sh' x').mp h'
+      rw [a1] at b1
+      simp only [Option.some.injEq] at b1
+      rw [a2, b2, b1]
+    · rw [hother sh i hi] at h
+      rw [hother sh' i hi] at h'
+      exact t.oneShard sh sh' i x x' h h'
+  · intro sh i x h
+    rw [hnext]
+    by_cases hi : i = e.id
+    · subst hi; exact hlt
+    · rw [hother sh i hi] at h; exact t.idsBelow sh i x h
+  · rw [hadm, hstore]; exact t.heldW.touch hg hid
+  · intro sh i x h
+    rw [hpend]
+    by_cases hi : i = e.id
+    · subst hi; exact hnp
+    · rw [hother sh i hi] at h; exact t.notPending sh i x h
+
+/-- a stored id is below `nextId` and is not the id of a pending put -/
+theorem Inv.stored_id {s : State} (h : Inv s) {k : Nat} {e : Entry} (hg : s.store.get? k = some e) :
+    e.id < s.nextId ∧ e.id ∉ pendingIds s :=
+  ⟨h.idsBelow.2.1 k e hg, fun hm => (h.pendingFresh.2 e.id hm).2 k e hg rfl⟩
+
+/-- rewriting a stored entry without touching its id or expiry (the soft-delete flag, the value) -/
+theorem TtlInv.touch {s : State} (h : Inv s) (t : TtlInv s) {k : Nat} {e e' : Entry} (hg : s.store.get? k = some e)
+    (hid : e'.id = e.id) (hx : e'.expiry = e.expiry) : TtlInv { s with store := s.store.set k e' } := by
+  obtain ⟨h1, h2⟩ := h.stored_id hg
+  refine t.retime hg hid h1 h2 rfl rfl rfl rfl rfl t.noDup (fun _ _ _ => rfl) ?_
+  intro sh x
+  rw [hx]
+  exact t.sync hg sh x
+
+theorem ttlinv_clientDelete {s : State} (h : Inv s) (t : TtlInv s) (c k : Nat) : TtlInv (clientDelete s c k).1 := by
+  unfold clientDelete
+  split
+  · exact t
+  · dsimp only
+    split
+    · rename_i e hg
+      exact (TtlInv.touch h t hg (e' := { e with soft := true }) rfl rfl).frame
+        (frame_sendCmd (Frame.refl _) c _ (by intro id hh; cases hh))
+    · exact t.frame (frame_sendCmd (Frame.refl _) c _ (by intro id hh; cases hh))
+
+/-- the index after `put_or_update` changed the expiry of the stored entry `e` to `ne` -/
+def upsertTtl (s : State) (id : Nat) (old ne : Option Nat) : AMap (Nat × Nat) Nat :=
+  match typeOfExpiryUpdate old ne with
+  | .added n => s.ttl.set (shardOf s.cfg n, id) n
+  | .deleted o => s.ttl.del (shardOf s.cfg o, id)
+  | .updated o n => (s.ttl.del (shardOf s.cfg o, id)).set (shardOf s.cfg n, id) n
+  | .nothing => s.ttl
+
+theorem upsertTtl_spec {s : State} (t : TtlInv s) {k : Nat} {e : Entry} (hg : s.store.get? k = some e)
+    (ne : Option Nat) :
+    AMap.NoDup (upsertTtl s e.id e.expiry ne) ∧
+    (∀ sh i, i ≠ e.id → (upsertTtl s e.id e.expiry ne).get? (sh, i) = s.ttl.get? (sh, i)) ∧
+    (∀ sh x, (upsertTtl s e.id e.expiry ne).get? (sh, e.id) = some x ↔ ne = some x ∧ sh = shardOf s.cfg x) := by
+  have hs := t.sync hg
+  have hne : ∀ (sh sh' i : Nat), i ≠ e.id → ((sh', e.id) : Nat × Nat) ≠ (sh, i) := by
+    intro sh sh' i hi heq
+    simp only [Prod.mk.injEq] at heq
+    exact hi heq.2.symm
+  unfold upsertTtl
+  cases hold : e.expiry with
+  | none =>
+    cases ne with
+    | none =>
+      have hif : typeOfExpiryUpdate none none = ExpiryUpdate.nothing := rfl
+      rw [hif]
+      refine ⟨t.noDup, fun _ _ _ => rfl, ?_⟩
+      intro sh x
+      rw [hs sh x, hold]
+    | some n =>
+      have hif : typeOfExpiryUpdate none (some n) = ExpiryUpdate.added n := rfl
+      rw [hif]
+      refine ⟨AMap.noDup_set t.noDup _ _, ?_, ?_⟩
+      · intro sh i hi
+        exact AMap.get?_set_other _ _ (hne sh _ i hi)
+      · intro sh x
+        simp only [AMap.get?_set, Prod.mk.injEq, and_true]
+        split
+        · rename_i heq
+          simp only [Option.some.injEq]
+          constructor
+          · intro h; subst h; exact ⟨rfl, heq.symm⟩
+          · intro h; exact h.1
+        · rename_i hneq
+          rw [hs sh x, hold]
+          constructor
+          · intro h; cases h.1
+          · intro h
+            simp only [Option.some.injEq] at h
+            obtain ⟨h1, h2⟩ := h
+            subst h1
+            exact absurd h2.symm hneq
+  | some o =>
+    cases ne with
+    | none =>
+      have hif : typeOfExpiryUpdate (some o) none = ExpiryUpdate.deleted o := rfl
+      rw [hif]
+      refine ⟨AMap.noDup_del t.noDup _, ?_, ?_⟩
+      · intro sh i hi
+        exact AMap.get?_del_other _ (hne sh _ i hi)
+      · intro sh x
+        simp only [AMap.get?_del, Prod.mk.injEq, and_true]
+        split
+        · simp
+        · rename_i hneq
+          rw [hs sh x, hold]
+          constructor
+          · intro h
+            simp only [Option.some.injEq] at h
+            obtain ⟨h1, h2⟩ := h
+            subst h1
+            exact absurd h2.symm hneq
+          · intro h; cases h.1
+    | some n =>
+      by_cases hon : o ≠ n
+      · have hif : typeOfExpiryUpdate (some o) (some n) = ExpiryUpdate.updated o n := by
+          simp [typeOfExpiryUpdate, hon]
+        rw [hif]
+        refine ⟨AMap.noDup_set (AMap.noDup_del t.noDup _) _ _, ?_, ?_⟩
+        · intro sh i hi
+          rw [AMap.get?_set_other _ _ (hne sh _ i hi), AMap.get?_del_other _ (hne sh _ i hi)]
+        · intro sh x
+          simp only [AMap.get?_set, AMap.get?_del, Prod.mk.injEq, and_true]
+          split
+          · rename_i heq
+            simp only [Option.some.injEq]
+            constructor
+            · intro h; subst h; exact ⟨rfl, heq.symm⟩
+            · intro h; exact h.1
+          · rename_i hneq
+            split
+            · constructor
+              · intro h; cases h
+              · intro h
+                simp only [Option.some.injEq] at h
+                obtain ⟨h1, h2⟩ := h
+                subst h1
+                exact absurd h2.symm hneq
+            · rename_i hneq2
+              rw [hs sh x, hold]
+              constructor
+              · intro h
+                simp only [Option.some.injEq] at h
+                obtain ⟨h1, h2⟩ := h
+                subst h1
+                exact absurd h2.symm hneq2
+              · intro h
+                simp only [Option.some.injEq] at h
+                obtain ⟨h1, h2⟩ := h
+                subst h1
+                exact absurd h2.symm hneq
+      · have : o = n := by
+          cases Nat.decEq o n with
+          | isTrue h => exact h
+          | isFalse h => exact absurd h hon
+        subst this
+        have hif : typeOfExpiryUpdate (some o) (some o) = ExpiryUpdate.nothing := by
+          simp [typeOfExpiryUpdate]
+        rw [hif]
+        refine ⟨t.noDup, fun _ _ _ => rfl, ?_⟩
+        intro sh x
+        rw [hs sh x, hold]
+
+theorem ttlinv_upsert_tail {s2 : State} (t2 : TtlInv s2) (uw2 : Option Int) (c id : Nat) :
+    TtlInv (match uw2 with
+          | some weight =>
+            if (!inI64 weight) = true then (s2, Out.panic Panic.weightOverflow)
+            else
+              if weight ≤ 0 then (s2, Out.panic Panic.weightNotPositive)
+              else sendCmd s2 c (Cmd.updateWeight id weight)
+          | none => spotAck s2 Status.accepted).1 := by
+  split
+  · split
+    · exact t2
+    · split
+      · exact t2
+      · exact t2.frame (frame_sendCmd (Frame.refl _) c _ (by intro i hh; cases hh))
+  · exact t2.frame (frame_spotAck _ _)
+
+theorem ttlinv_clientUpsert {s : State} (h : Inv s) (t : TtlInv s) (c k : Nat) (v : Option Nat) (w : Option Int)
+    (ttl : Option Nat) (rm : Bool) : TtlInv (clientUpsert s c k v w ttl rm).1 := by
+  unfold clientUpsert
+  split
+  · exact t
+  · extract_lets uw
+    clear_value uw
+    split
+    · split
+      · split
+        · exact t
+        · split
+          · exact t.frame (frame_sendCmd (frame_bump s) c _
+              (by intro id hh; simp only [Cmd.putId?, Option.some.injEq] at hh; omega))
+          · exact t.frame (frame_sendCmd (frame_bump s) c _
+              (by intro id hh; simp only [Cmd.putId?, Option.some.injEq] at hh; omega))
+      · exact t
+    · rename_i e hg
+      extract_lets newExp
+      clear_value newExp
+      split
+      · exact t
+      · rename_i ne
+        extract_lets e' s1 existing
+        clear_value existing
+        obtain ⟨h1, h2⟩ := h.stored_id hg
+        obtain ⟨u1, u2, u3⟩ := upsertTtl_spec t hg ne
+        split
+        rename_i s2 uw2 hpair
+        refine ttlinv_upsert_tail ?_ uw2 c _
+        unfold upsertTtl at u1 u2 u3
+        split at hpair
+        · rename_i n hty
+          cases hpair
+          rw [hty] at u1 u2 u3
+          exact t.retime hg (e' := e') rfl h1 h2 rfl rfl rfl rfl rfl u1 u2 u3
+        · rename_i o hty
+          cases hpair
+          rw [hty] at u1 u2 u3
+          exact t.retime hg (e' := e') rfl h1 h2 rfl rfl rfl rfl rfl u1 u2 u3
+        · rename_i o n hty
+          cases hpair
+          rw [hty] at u1 u2 u3
+          exact t.retime hg (e' := e') rfl h1 h2 rfl rfl rfl rfl rfl u1 u2 u3
+        · rename_i hty
+          cases hpair
+          rw [hty] at u1 u2 u3
+          exact t.retime hg (e' := e') rfl h1 h2 rfl rfl rfl rfl rfl u1 u2 u3
+
+/-! ### un-charging an id with its key; dropping stale index entries -/
+
+/-- An id is un-charged and the key it was charged for leaves the store (one eviction by the sweeper, or the
+    first half of the worker's `delete`). The index entry of the id, if any, becomes stale. -/
+theorem TtlInv.uncharge {s s' : State} (t : TtlInv s) {id : Nat} {wk : WKey} (hg : s.adm.kw.get? id = some wk)
+    (hkw : s'.adm.kw = s.adm.kw.del id) (hstore : s'.store = s.store.del wk.key) (httl : s'.ttl = s.ttl)
+    (hcfg : s'.cfg = s.cfg) (hnext : s'.nextId = s.nextId) (hpend : pendingIds s' = pendingIds s) : TtlInv s' := by
+  refine ⟨?_, ?_, ?_, ?_, ?_, ?_, ?_, ?_⟩
+  · rw [httl]; exact t.noDup
+  · rw [httl, hcfg]; exact t.shardOk
+  · rw [httl, hkw, hstore]
+    intro sh i x h
+    rcases t.current sh i x h with h1 | ⟨k', e'', h1, h2, h3⟩
+    · left; rw [AMap.get?_del]; split <;> simp [h1]
+    · by_cases hi : id = i
+      · left; rw [hi]; exact AMap.get?_del_same _ _
+      · refine Or.inr ⟨k', e'', ?_, h2, h3⟩
+        have hk : wk.key ≠ k' := by
+          intro heq
+          have := t.heldW.2 id wk e'' hg (by rw [heq]; exact h1)
+          exact hi (this.symm.trans h2)
+        rw [AMap.get?_del_other _ hk]; exact h1
+  · rw [httl, hstore, hcfg]
+    intro k' e'' x h hx
+    rw [AMap.get?_del] at h
+    split at h
+    · cases h
+    · exact t.indexedU k' e'' x h hx
+  · rw [httl]; exact t.oneShard
+  · rw [httl, hnext]; exact t.idsBelow
+  · rw [hkw, hstore]; exact t.heldW.remove hg
+  · rw [httl, hpend]; exact t.notPending
+
+/-- Index entries whose id is no longer charged may be dropped. -/
+theorem TtlInv.dropStale {s s' : State} (t : TtlInv s) (hnd : AMap.NoDup s'.ttl)
+    (hsub : ∀ a b, s'.ttl.get? a = some b → s.ttl.get? a = some b)
+    (hdrop : ∀ sh i x, s.ttl.get? (sh, i) = some x → s'.ttl.get? (sh, i) = none → s.adm.kw.get? i = none)
+    (hstore : s'.store = s.store) (hadm : s'.adm = s.adm) (hcfg : s'.cfg = s.cfg) (hnext : s'.nextId = s.nextId)
+    (hpend : pendingIds s' = pendingIds s) : TtlInv s' := by
+  refine ⟨hnd, ?_, ?_, ?_, ?_, ?_, ?_, ?_⟩
+  · rw [hcfg]; intro sh i x h; exact t.shardOk sh i x (hsub _ _ h)
+  · rw [hadm, hstore]; intro sh i x h; exact t.current sh i x (hsub _ _ h)
+  · rw [hstore, hcfg]
+    intro k e x h hx
+    have h1 := t.indexedU k e x h hx
+    cases h2 : s'.ttl.get? (shardOf s.cfg x, e.id) with
+    | none =>
+      have := hdrop _ _ _ h1 h2
+      obtain ⟨wk, hw, _⟩ := t.charged h
+      rw [this] at hw; cases hw
+    | some y =>
+      have := hsub _ _ h2
+      rw [h1] at this
+      exact this.symm
+  · intro sh sh' i x x' h h'; exact t.oneShard sh sh' i x x' (hsub _ _ h) (hsub _ _ h')
+  · rw [hnext]; intro sh i x h; exact t.idsBelow sh i x (hsub _ _ h)
+  · rw [hadm, hstore]; exact t.heldW
+  · rw [hpend]; intro sh i x h; exact t.notPending sh i x (hsub _ _ h)
+
+/-! ### the TTL sweeper -/
+
+theorem sweepEvict_none {s : State} {id : Nat} (hg : s.adm.kw.get? id = none) : sweepEvict s id = (s, none) := by
+  unfold sweepEvict
+  rw [Adm.delete_none hg]
+
+theorem sweepEvict_some {s : State} {id : Nat} {wk : WKey} (hg : s.adm.kw.get? id = some wk) :
+    sweepEvict s id =
+      (applyEvict { s with adm := { s.adm with kw := s.adm.kw.del id, used := s.adm.used - wk.weight } }
+        (id, wk.key, wk.weight), some (id, wk.key, wk.weight)) := by
+  unfold sweepEvict
+  rw [Adm.delete_some hg]
+
+theorem pendingIds_congr {s s' : State} (h1 : s'.queue = s.queue) (h2 : s'.pend = s.pend) :
+    pendingIds s' = pendingIds s := by
+  simp only [pendingIds, pendingCmds, h1, h2]
+
+theorem ttlinv_sweepEvict {s : State} (t : TtlInv s) (id : Nat) : TtlInv (sweepEvict s id).1 := by
+  cases hg : s.adm.kw.get? id with
+  | none => rw [sweepEvict_none hg]; exact t
+  | some wk =>
+    rw [sweepEvict_some hg]
+    obtain ⟨e1, e2, e3, e4, e5, e6, e7, e8, _⟩ := applyEvict_frame
+      { s with adm := { s.adm with kw := s.adm.kw.del id, used := s.adm.used - wk.weight } } (id, wk.key, wk.weight)
+    refine t.uncharge hg (by rw [e1]) (by rw [applyEvict_store]) e8 e3 e2 (pendingIds_congr e5 e6)
+
+theorem ttlinv_sweepEntries : ∀ (l : List ((Nat × Nat) × Nat)) (s : State) (acc : List Evicted), TtlInv s →
+    TtlInv (sweepEntries s l acc).1 := by
+  intro l
+  induction l with
+  | nil => intro s acc t; exact t
+  | cons x l ih =>
+    intro s acc t
+    obtain ⟨⟨sh, id⟩, ex⟩ := x
+    simp only [sweepEntries]
+    exact ih _ _ (ttlinv_sweepEvict t id)
+
+/-- What `sweepEntries` does for a list `l` of index entries: exactly the charged ids of `l` are evicted. -/
+structure SweepSpec (s : State) (l : List ((Nat × Nat) × Nat)) (s' : State) (evNew : List Evicted) : Prop where
+  kw : ∀ i, s'.adm.kw.get? i = if i ∈ l.map (·.1.2) then none else s.adm.kw.get? i
+  store : s'.store = AMap.delKeys s.store (evNew.map (·.2.1))
+  used : s'.adm.used = s.adm.used - (evNew.map (·.2.2)).sum
+  max : s'.adm.max = s.adm.max
+  evNodup : (evNew.map (·.1)).Nodup
+  evIn : ∀ e ∈ evNew, e.1 ∈ l.map (·.1.2) ∧ ∃ h, s.adm.kw.get? e.1 = some ⟨e.2.1, h, e.2.2⟩
+  evAll : ∀ i ∈ l.map (·.1.2), ∀ wk, s.adm.kw.get? i = some wk → (i, wk.key, wk.weight) ∈ evNew
+  ttl : s'.ttl = s.ttl
+  now : s'.now = s.now
+  cfg : s'.cfg = s.cfg
+  nextId : s'.nextId = s.nextId
+  worker : s'.worker = s.worker
+  queue : s'.queue = s.queue
+  pend : s'.pend = s.pend
+
+theorem sweepEntries_spec : ∀ (l : List ((Nat × Nat) × Nat)) (s : State) (acc : List Evicted),
+    ∃ evNew, (sweepEntries s l acc).2 = acc.reverse ++ evNew ∧ SweepSpec s l (sweepEntries s l acc).1 evNew := by
+  intro l
+  induction l with
+  | nil =>
+    intro s acc
+    refine ⟨[], by simp [sweepEntries], ?_⟩
+    exact ⟨by intro i; simp [sweepEntries], rfl, by simp [sweepEntries], rfl, by simp, by simp, by simp,
+      rfl, rfl, rfl, rfl, rfl, rfl, rfl⟩
+  | cons p rest ih =>
+    intro s acc
+    obtain ⟨⟨sh, id⟩, ex⟩ := p
+    simp only [sweepEntries]
+    cases hg : s.adm.kw.get? id with
+    | none =>
+      rw [sweepEvict_none hg]
+      obtain ⟨evNew, he, sp⟩ := ih s acc
+      refine ⟨evNew, he, ?_⟩
+      refine ⟨?_, sp.store, sp.used, sp.max, sp.evNodup, ?_, ?_, sp.ttl, sp.now, sp.cfg, sp.nextId, sp.worker,
+        sp.queue, sp.pend⟩
+      · intro i
+        rw [sp.kw i]
+        simp only [List.map_cons, List.mem_cons]
+        by_cases h1 : i ∈ rest.map (·.1.2)
+        · simp [h1]
+        · by_cases h2 : i = id
+          · subst h2; simp [hg]
+          · simp [h1, h2]
+      · intro e hm
+        obtain ⟨a, b⟩ := sp.evIn e hm
+        exact ⟨by simp only [List.map_cons, List.mem_cons]; exact Or.inr a, b⟩
+      · intro i hi wk' hw
+        simp only [List.map_cons, List.mem_cons] at hi
+        rcases hi with hi | hi
+        · subst hi; rw [hg] at hw; cases hw
+        · exact sp.evAll i hi wk' hw
+    | some wk =>
+      rw [sweepEvict_some hg]
+      obtain ⟨e1, e2, e3, e4, e5, e6, e7, e8, _⟩ := applyEvict_frame
+        { s with adm := { s.adm with kw := s.adm.kw.del id, used := s.adm.used - wk.weight } } (id, wk.key, wk.weight)
+      have e0 := applyEvict_store
+        { s with adm := { s.adm with kw := s.adm.kw.del id, used := s.adm.used - wk.weight } } (id, wk.key, wk.weight)
+      obtain ⟨evNew, he, sp⟩ := ih (applyEvict
+        { s with adm := { s.adm with kw := s.adm.kw.del id, used := s.adm.used - wk.weight } } (id, wk.key, wk.weight))
+        ((id, wk.key, wk.weight) :: acc)
+      refine ⟨(id, wk.key, wk.weight) :: evNew, by rw [he]; simp, ?_⟩
+      have hkw1 : ∀ i, (applyEvict
+          { s with adm := { s.adm with kw := s.adm.kw.del id, used := s.adm.used - wk.weight } }
+          (id, wk.key, wk.weight)).adm.kw.get? i = if id = i then none else s.adm.kw.get? i := by
+        intro i; rw [e1]; exact AMap.get?_del _ _ _
+      have hne : ∀ e ∈ evNew, e.1 ≠ id := by
+        intro e hm heq
+        obtain ⟨_, hh, hget⟩ := sp.evIn e hm
+        rw [hkw1, heq] at hget
+        simp at hget
+      refine ⟨?_, ?_, ?_, ?_, ?_, ?_, ?_, sp.ttl.trans e8, sp.now.trans e7, sp.cfg.trans e3, sp.nextId.trans e2,
+        sp.worker.trans e4, sp.queue.trans e5, sp.pend.trans e6⟩
+      · intro i
+        rw [sp.kw i, hkw1 i]
+        simp only [List.map_cons, List.mem_cons]
+        by_cases h1 : i ∈ rest.map (·.1.2)
+        · simp [h1]
+        · by_cases h2 : i = id
+          · subst h2; simp
+          · have h3 : ¬ id = i := fun h => h2 h.symm
+            simp [h1, h2, h3]
+      · rw [sp.store, e0]; rfl
+      · rw [sp.used, e1]
+        simp only [List.map_cons, List.sum_cons]
+        omega
+      · rw [sp.max, e1]
+      · simp only [List.map_cons, List.nodup_cons, List.mem_map, not_exists, not_and]
+        exact ⟨fun e hm heq => hne e hm heq, sp.evNodup⟩
+      · intro e hm
+        simp only [List.mem_cons] at hm
+        rcases hm with rfl | hm
+        · exact ⟨by simp, wk.hash, by simp [hg]⟩
+        · obtain ⟨a, hh, hget⟩ := sp.evIn e hm
+          refine ⟨by simp only [List.map_cons, List.mem_cons]; exact Or.inr a, hh, ?_⟩
+          rw [hkw1] at hget
+          split at hget
+          · cases hget
+          · exact hget
+      · intro i hi wk' hw
+        by_cases h2 : i = id
+        · subst h2
+          rw [hg] at hw
+          simp only [Option.some.injEq] at hw
+          subst hw
+          exact List.mem_cons_self
+        · simp only [List.map_cons, List.mem_cons] at hi
+          rcases hi with hi | hi
+          · exact absurd hi h2
+          · refine List.mem_cons_of_mem _ (sp.evAll i hi wk' ?_)
+            rw [hkw1]
+            have h3 : ¬ id = i := fun h => h2 h.symm
+            simp [h3, hw]
+
+/-- the entries a sweep at `s` takes out of the index: those of the visited shard whose deadline has passed -/
+def due (s : State) (p : (Nat × Nat) × Nat) : Bool :=
+  p.1.1 == secsOf s.now % s.cfg.shards && decide (s.now > p.2)
+
+/-- One sweep, taken apart: the evictions are those of `sweepEntries` over the due entries, then exactly the due
+    entries leave the index. -/
+theorem sweepStep_eq {s s' : State} {ev : List Evicted} (hs : sweepStep s = .ok (s', .swept ev)) :
+    s.sweeperAlive = true ∧ ev = (sweepEntries s (s.ttl.filter (due s)) []).2 ∧
+    s' = { (sweepEntries s (s.ttl.filter (due s)) []).1 with
+            ttl := (sweepEntries s (s.ttl.filter (due s)) []).1.ttl.filter (fun p => !due s p),
+            sweeperAlive := (sweepEntries s (s.ttl.filter (due s)) []).1.sweeperKeep } := by
+  unfold sweepStep at hs
+  split at hs
+  · cases hs
+  · rename_i ha
+    dsimp only at hs
+    simp only [Except.ok.injEq, Prod.mk.injEq, Out.swept.injEq] at hs
+    obtain ⟨h1, h2⟩ := hs
+    refine ⟨by simpa using ha, h2.symm, h1.symm⟩
+
+theorem sweepStep_out {s s' : State} {out : Out} (hs : sweepStep s = .ok (s', out)) : ∃ ev, out = .swept ev := by
+  unfold sweepStep at hs
+  split at hs
+  · cases hs
+  · dsimp only at hs
+    simp only [Except.ok.injEq, Prod.mk.injEq] at hs
+    exact ⟨_, hs.2.symm⟩
+
+theorem ttlinv_sweepStep {s s' : State} {out : Out} (t : TtlInv s) (hs : sweepStep s = .ok (s', out)) :
+    TtlInv s' := by
+  obtain ⟨ev, rfl⟩ := sweepStep_out hs
+  obtain ⟨_, _, rfl⟩ := sweepStep_eq hs
+  have t1 := ttlinv_sweepEntries (s.ttl.filter (due s)) s [] t
+  obtain ⟨evNew, _, sp⟩ := sweepEntries_spec (s.ttl.filter (due s)) s []
+  refine t1.dropStale (AMap.noDup_filter t1.noDup _) ?_ ?_ rfl rfl rfl rfl rfl
+  · intro a b h
+    exact (AMap.get?_filter_some t1.noDup h).1
+  · intro sh i x h hnone
+    rw [sp.kw i]
+    have hdue : due s ((sh, i), x) = true := by
+      cases hd : due s ((sh, i), x) with
+      | true => rfl
+      | false =>
+        have := AMap.get?_filter_of t1.noDup (p := fun p => !due s p) h (by simp [hd])
+        rw [this] at hnone; cases hnone
+    have hmem : ((sh, i), x) ∈ s.ttl.filter (due s) := by
+      rw [sp.ttl] at h
+      exact List.mem_filter.mpr ⟨AMap.mem_of_get? h, hdue⟩
+    have : i ∈ (s.ttl.filter (due s)).map (·.1.2) := List.mem_map.mpr ⟨_, hmem, rfl⟩
+    simp [this]
+
+/-! ### the worker: put -/
+
+theorem foldl_applyEvict_ttl (evs : List Evicted) : ∀ s : State, (evs.foldl applyEvict s).ttl = s.ttl := by
+  induction evs with
+  | nil => intro s; rfl
+  | cons e evs ih =>
+    intro s
+    simp only [List.foldl_cons]
+    rw [ih]
+    exact (applyEvict_frame s e).2.2.2.2.2.2.2.1
+
+/-- Admission of a fresh id: the evicted ids are un-charged and their keys leave the store; if accepted, the new id
+    is charged (its key is not stored yet, it has no index entry). Evicted ids keep their index entries, which
+    are stale from now on. -/
+theorem TtlInv.admission {s s' : State} (t : TtlInv s) {id k hash : Nat} {w : Int} {r : AdmResult}
+    (sp : AddSpec s.adm id k hash w r) (hk : s.store.get? k = none)
+    (hfst : ∀ k e, s.store.get? k = some e → e.id ≠ id)
+    (hnoidx : ∀ sh x, s.ttl.get? (sh, id) ≠ some x)
+    (hadm : s'.adm = r.adm) (hstore : s'.store = AMap.delKeys s.store (r.evicted.map (·.2.1)))
+    (httl : s'.ttl = s.ttl) (hcfg : s'.cfg = s.cfg) (hnext : s'.nextId = s.nextId)
+    (hpend : ∀ i ∈ pendingIds s', i ∈ pendingIds s) : TtlInv s' := by
+  have F1 : ∀ i, i ≠ id → r.adm.kw.get? i = if i ∈ r.evicted.map (·.1) then none else s.adm.kw.get? i := by
+    intro i hi; rw [sp.get i]; simp [hi]
+  have F2 : ∀ k' e'', s.store.get? k' = some e'' → e''.id ∉ r.evicted.map (·.1) → k' ∉ r.evicted.map (·.2.1) := by
+    intro k' e'' he hn hmem
+    obtain ⟨ev, hev, hkey⟩ := List.mem_map.mp hmem
+    obtain ⟨hh, hget⟩ := sp.evIn ev hev
+    have := t.heldW.2 ev.1 _ e'' hget (by simp only; rw [hkey]; exact he)
+    exact hn (List.mem_map.mpr ⟨ev, hev, this.symm⟩)
+  have F3 : ∀ k' e'', s.store.get? k' = some e'' → k' ∉ r.evicted.map (·.2.1) → e''.id ∉ r.evicted.map (·.1) := by
+    intro k' e'' he hn hmem
+    obtain ⟨ev, hev, hid⟩ := List.mem_map.mp hmem
+    obtain ⟨hh, hget⟩ := sp.evIn ev hev
+    obtain ⟨wk, hw, hkey⟩ := t.charged he
+    rw [hid, hw] at hget
+    simp only [Option.some.injEq] at hget
+    subst hget
+    exact hn (List.mem_map.mpr ⟨ev, hev, hkey⟩)
+  refine ⟨?_, ?_, ?_, ?_, ?_, ?_, ?_, ?_⟩
+  · rw [httl]; exact t.noDup
+  · rw [httl, hcfg]; exact t.shardOk
+  · rw [httl, hadm, hstore]
+    intro sh i x h
+    have hi : i ≠ id := by intro heq; subst heq; exact hnoidx sh x h
+    rw [F1 i hi]
+    rcases t.current sh i x h with h1 | ⟨k', e'', h1, h2, h3⟩
+    · left; split <;> simp [h1]
+    · by_cases hev : i ∈ r.evicted.map (·.1)
+      · left; simp [hev]
+      · refine Or.inr ⟨k', e'', ?_, h2, h3⟩
+        rw [AMap.get?_delKeys]
+        have := F2 k' e'' h1 (by rw [h2]; exact hev)
+        simp [this, h1]
+  · rw [httl, hstore, hcfg]
+    intro k' e'' x h hx
+    rw [AMap.get?_delKeys] at h
+    split at h
+    · cases h
+    · exact t.indexedU k' e'' x h hx
+  · rw [httl]; exact t.oneShard
+  · rw [httl, hnext]; exact t.idsBelow
+  · rw [hadm, hstore]
+    constructor
+    · intro k' e'' h
+      rw [AMap.get?_delKeys] at h
+      split at h
+      · cases h
+      · rename_i hkn
+        obtain ⟨wk, hw, hkey⟩ := t.charged h
+        refine ⟨wk, ?_, hkey⟩
+        rw [F1 _ (hfst k' e'' h)]
+        simp [F3 k' e'' h hkn, hw]
+    · intro i wk e'' hw h
+      rw [AMap.get?_delKeys] at h
+      split at h
+      · cases h
+      · by_cases hi : i = id
+        · subst hi
+          rw [sp.get i] at hw
+          split at hw
+          · simp only [Option.some.injEq] at hw
+            subst hw
+            simp only at h
+            rw [hk] at h; cases h
+          · rename_i hna
+            split at hw
+            · cases hw
+            · exact t.heldW.2 i wk e'' hw h
+        · rw [F1 i hi] at hw
+          split at hw
+          · cases hw
+          · exact t.heldW.2 i wk e'' hw h
+  · rw [httl]
+    intro sh i x h hm
+    exact t.notPending sh i x h (hpend i hm)
+
+/-- The store insert that completes an accepted put: the (charged, not yet stored) id gets its entry and, when the
+    entry has a deadline, its index entry. -/
+theorem TtlInv.insert {m s' : State} (t : TtlInv m) {id k : Nat} {entry : Entry} (hent : entry.id = id)
+    (hk : m.store.get? k = none) (hfst : ∀ k e, m.store.get? k = some e → e.id ≠ id)
+    (hnoidx : ∀ sh x, m.ttl.get? (sh, id) ≠ some x) (hidn : id < m.nextId) (hidp : id ∉ pendingIds s')
+    (hstore : s'.store = m.store.set k entry) (hadm : s'.adm = m.adm) (hcfg : s'.cfg = m.cfg)
+    (hnext : s'.nextId = m.nextId) (hpend : ∀ i ∈ pendingIds s', i ∈ pendingIds m)
+    (httl : (entry.expiry = none ∧ s'.ttl = m.ttl) ∨
+      ∃ x, entry.expiry = some x ∧ s'.ttl = m.ttl.set (shardOf m.cfg x, id) x)
+    (hW : HeldW s'.adm.kw s'.store) : TtlInv s' := by
+  have hnd : AMap.NoDup s'.ttl := by
+    rcases httl with ⟨_, h⟩ | ⟨x, _, h⟩
+    · rw [h]; exact t.noDup
+    · rw [h]; exact AMap.noDup_set t.noDup _ _
+  have hother : ∀ sh i, i ≠ id → s'.ttl.get? (sh, i) = m.ttl.get? (sh, i) := by
+    intro sh i hi
+    rcases httl with ⟨_, h⟩ | ⟨x, _, h⟩
+    · rw [h]
+    · rw [h]
+      refine AMap.get?_set_other _ _ ?_
+      intro heq
+      simp only [Prod.mk.injEq] at heq
+      exact hi heq.2.symm
+  have hself : ∀ sh x, s'.ttl.get? (sh, id) = some x ↔ entry.expiry = some x ∧ sh = shardOf m.cfg x := by
+    intro sh x
+    rcases httl with ⟨h0, h⟩ | ⟨x1, h0, h⟩
+    · rw [h, h0]
+      constructor
+      · intro hg; exact absurd hg (hnoidx sh x)
+      · intro hg; cases hg.1
+    · rw [h, h0, AMap.get?_set]
+      simp only [Prod.mk.injEq, and_true]
+      split
+      · rename_i heq
+        simp only [Option.some.injEq]
+        constructor
+        · intro hx; subst hx; exact ⟨rfl, heq.symm⟩
+        · intro hx; exact hx.1
+      · rename_i hneq
+        constructor
+        · intro hg; exact absurd hg (hnoidx sh x)
+        · intro hx
+          simp only [Option.some.injEq] at hx
+          obtain ⟨h1, h2⟩ := hx
+          subst h1
+          exact absurd h2.symm hneq
+  refine ⟨hnd, ?_, ?_, ?_, ?_, ?_, hW, ?_⟩
+  · intro sh i x h
+    rw [hcfg]
+    by_cases hi : i = id
+    · subst hi; exact ((hself sh x).mp h).2
+    · rw [hother sh i hi] at h; exact t.shardOk sh i x h
+  · intro sh i x h
+    rw [hadm, hstore]
+    by_cases hi : i = id
+    · subst hi
+      exact Or.inr ⟨k, entry, by simp, hent, ((hself sh x).mp h).1⟩
+    · rw [hother sh i hi] at h
+      rcases t.current sh i x h with h1 | ⟨k', e'', h1, h2, h3⟩
+      · exact Or.inl h1
+      · refine Or.inr ⟨k', e'', ?_, h2, h3⟩
+        have hkk : k ≠ k' := by
+          intro heq; subst heq
+          rw [hk] at h1; cases h1
+        rw [AMap.get?_set_other _ _ hkk]; exact h1
+  · intro k' e'' x h hx
+    rw [hstore] at h
+    rw [hcfg]
+    rw [AMap.get?_set] at h
+    split at h
+    · simp only [Option.some.injEq] at h
+      subst h
+      rw [hent]
+      exact (hself _ x).mpr ⟨hx, rfl⟩
+    · rw [hother _ _ (hfst k' e'' h)]
+      exact t.indexedU k' e'' x h hx
+  · intro sh sh' i x x' h h'
+    by_cases hi : i = id
+    · subst hi
+      obtain ⟨a1, a2⟩ := (hself sh x).mp h
+      obtain ⟨b1, b2⟩ := (hself sh' x').mp h'
+      rw [a1] at b1
+      simp only [Option.some.injEq] at b1
+      rw [a2, b2, b1]
+    · rw [hother sh i hi] at h
+      rw [hother sh' i hi] at h'
+      exact t.oneShard sh sh' i x x' h h'
+  · intro sh i x h
+    rw [hnext]
+    by_cases hi : i = id
+    · subst hi; exact hidn
+    · rw [hother sh i hi] at h; exact t.idsBelow sh i x h
+  · intro sh i x h hm
+    by_cases hi : i = id
+    · subst hi; exact hidp hm
+    · rw [hother sh i hi] at h; exact t.notPending sh i x h (hpend i hm)
+
+theorem ttlinv_workerPut {s : State} {cmd : Cmd} {id hash : Nat} {w : Int} {k v : Nat} {ttl : Option Nat}
+    {o o' : Oracle} {ex : Exec} (hc : Core s)
+    (hp : PendOK s.nextId s.adm.kw s.store (cmd :: pendingCmds s)) (hcid : cmd.putId? = some id) (hw : 0 < w)
+    (hwk : s.worker ≠ .dead) (t : TtlInv s) (hnoidx : ∀ sh x, s.ttl.get? (sh, id) ≠ some x)
+    (h : workerPut s id hash w k v ttl o = .ok (ex, o')) : TtlInv ex.kill := by
+  have h0 := h
+  obtain ⟨hidn, hidP, hidkw, hidst⟩ := hp.head hcid
+  unfold workerPut at h
+  split at h
+  · simp only [Except.ok.injEq, Prod.mk.injEq] at h
+    obtain ⟨rfl, _⟩ := h
+    exact t
+  · rename_i hcont
+    have hk : s.store.get? k = none := by
+      simp only [AMap.contains] at hcont
+      cases hg : s.store.get? k with
+      | none => rfl
+      | some x => simp [hg] at hcont
+    split at h
+    · cases h
+    · rename_i r hm
+      have sp := maybeAdd_spec hc.kwNoDup hc.sum hidkw hm
+      obtain ⟨f1, f2, f3, f4, f5, f6, f7⟩ := foldl_applyEvict r.evicted { s with adm := r.adm }
+      have f8 := foldl_applyEvict_ttl r.evicted { s with adm := r.adm }
+      have hpe : pendingIds (r.evicted.foldl applyEvict { s with adm := r.adm }) = pendingIds s :=
+        pendingIds_congr f6 f7
+      have t1 : TtlInv (r.evicted.foldl applyEvict { s with adm := r.adm }) :=
+        t.admission sp hk hidst hnoidx f2 f1 f8 f4 f3 (by intro i hi; rw [hpe] at hi; exact hi)
+      have hk1 : (r.evicted.foldl applyEvict { s with adm := r.adm }).store.get? k = none := by
+        rw [f1, AMap.get?_delKeys]; simp [hk]
+      have hfst1 : ∀ k' e, (r.evicted.foldl applyEvict { s with adm := r.adm }).store.get? k' = some e → e.id ≠ id := by
+        intro k' e he
+        rw [f1, AMap.get?_delKeys] at he
+        split at he
+        · cases he
+        · exact hidst k' e he
+      have hno1 : ∀ sh x, (r.evicted.foldl applyEvict { s with adm := r.adm }).ttl.get? (sh, id) ≠ some x := by
+        intro sh x; rw [f8]; exact hnoidx sh x
+      have hidp : id ∉ pendingIds s := hidP
+      dsimp only at h
+      split at h
+      · rename_i hacc
+        split at h
+        · simp only [Except.ok.injEq, Prod.mk.injEq] at h
+          obtain ⟨rfl, _⟩ := h
+          have hI := inv_workerPut hc hp hcid hw h0
+          refine t1.insert (entry := { value := v, id := id, expiry := none, soft := false }) rfl hk1 hfst1 hno1
+            (by rw [f3]; exact hidn) ?_ rfl rfl rfl rfl ?_ (Or.inl ⟨rfl, rfl⟩) ?_
+          · show id ∉ pendingIds (r.evicted.foldl applyEvict { s with adm := r.adm })
+            rw [hpe]; exact hidp
+          · intro i hi; exact hi
+          · exact heldW_of_inv hI (by show (r.evicted.foldl applyEvict { s with adm := r.adm }).worker ≠ _; rw [f5]; exact hwk)
+        · split at h
+          · simp only [Except.ok.injEq, Prod.mk.injEq] at h
+            obtain ⟨rfl, _⟩ := h
+            refine t1.frame (frame_of_ple rfl rfl rfl rfl rfl ?_)
+            simp only [pendingCmds, Exec.kill, f7, List.map_nil, List.nil_append]
+            exact PLe.right _ _
+          · rename_i e _
+            simp only [Except.ok.injEq, Prod.mk.injEq] at h
+            obtain ⟨rfl, _⟩ := h
+            have hI := inv_workerPut hc hp hcid hw h0
+            refine t1.insert (entry := { value := v, id := id, expiry := some e, soft := false }) rfl hk1 hfst1 hno1
+              (by rw [f3]; exact hidn) ?_ rfl rfl rfl rfl ?_ (Or.inr ⟨e, rfl, rfl⟩) ?_
+            · show id ∉ pendingIds (r.evicted.foldl applyEvict { s with adm := r.adm })
+              rw [hpe]; exact hidp
+            · intro i hi; exact hi
+            · exact heldW_of_inv hI (by show (r.evicted.foldl applyEvict { s with adm := r.adm }).worker ≠ _; rw [f5]; exact hwk)
+      · simp only [Except.ok.injEq, Prod.mk.injEq] at h
+        obtain ⟨rfl, _⟩ := h
+        exact t1.frame (frame_of_ple rfl rfl rfl rfl rfl (PLe.refl _))
+
+/-! ### the worker: update-weight and delete -/
+
+theorem TtlInv.reweigh {s s' : State} (t : TtlInv s) {id : Nat} {wk : WKey} (hg : s.adm.kw.get? id = some wk) (w : Int)
+    (hkw : s'.adm.kw = s.adm.kw.set id { wk with weight := w }) (hstore : s'.store = s.store) (httl : s'.ttl = s.ttl)
+    (hcfg : s'.cfg = s.cfg) (hnext : s'.nextId = s.nextId) (hpend : ∀ i ∈ pendingIds s', i ∈ pendingIds s) :
+    TtlInv s' := by
+  refine ⟨?_, ?_, ?_, ?_, ?_, ?_, ?_, ?_⟩
+  · rw [httl]; exact t.noDup
+  · rw [httl, hcfg]; exact t.shardOk
+  · rw [httl, hkw, hstore]
+    intro sh i x h
+    rcases t.current sh i x h with h1 | h1
+    · left
+      rw [AMap.get?_set]
+      split
+      · rename_i hi; subst hi; rw [hg] at h1; cases h1
+      · exact h1
+    · exact Or.inr h1
+  · rw [httl, hstore, hcfg]; exact t.indexedU
+  · rw [httl]; exact t.oneShard
+  · rw [httl, hnext]; exact t.idsBelow
+  · rw [hkw, hstore]
+    obtain ⟨h1, h2⟩ := t.heldW
+    constructor
+    · intro k e he
+      obtain ⟨wk', hw', hk'⟩ := h1 k e he
+      rw [AMap.get?_set]
+      split
+      · rename_i hi
+        rw [← hi, hg] at hw'
+        simp only [Option.some.injEq] at hw'
+        subst hw'
+        exact ⟨_, rfl, hk'⟩
+      · exact ⟨wk', hw', hk'⟩
+    · intro i wk' e hw' he
+      rw [AMap.get?_set] at hw'
+      split at hw'
+      · rename_i hi
+        simp only [Option.some.injEq] at hw'
+        subst hw'; subst hi
+        exact h2 id wk e hg he
+      · exact h2 i wk' e hw' he
+  · rw [httl]; intro sh i x h hm; exact t.notPending sh i x h (hpend i hm)
+
+theorem ttlinv_workerUpdateWeight {s s0 : State} (t : TtlInv s0) (e1 : s.adm = s0.adm) (e2 : s.store = s0.store)
+    (e3 : s.ttl = s0.ttl) (e4 : s.cfg = s0.cfg) (e5 : s.nextId = s0.nextId)
+    (hle : PLe (pendingCmds s) (pendingCmds s0)) (id : Nat) (w : Int) : TtlInv (workerUpdateWeight s id w).kill := by
+  have hsub : ∀ i ∈ pendingIds s, i ∈ pendingIds s0 := fun i hi => mem_ids_of_PLe hle hi
+  unfold workerUpdateWeight
+  split
+  · exact t.frame (frame_of_ple e3 e2 e1 e4 e5 hle)
+  · rename_i wk hg
+    dsimp only
+    split
+    · refine t.frame (frame_of_ple e3 e2 e1 e4 e5 ?_)
+      simp only [pendingCmds, Exec.kill, List.map_nil, List.nil_append]
+      exact PLe.trans (PLe.right _ _) hle
+    · simp only [Exec.kill]
+      rw [e1] at hg
+      exact t.reweigh hg w (by simp only [e1]) e2 e3 e4 e5 hsub
+
+theorem ttlinv_workerDelete {s s0 : State} (t : TtlInv s0) (e1 : s.adm = s0.adm) (e2 : s.store = s0.store)
+    (e3 : s.ttl = s0.ttl) (e4 : s.cfg = s0.cfg) (e5 : s.nextId = s0.nextId)
+    (hle : PLe (pendingCmds s) (pendingCmds s0)) (k : Nat) : TtlInv (workerDelete s k).kill := by
+  have t' : TtlInv s := t.frame (frame_of_ple e3 e2 e1 e4 e5 hle)
+  unfold workerDelete
+  split
+  · exact t'
+  · rename_i e he
+    dsimp only
+    obtain ⟨wk, hg, hkey⟩ := t'.charged he
+    rw [Adm.delete_some hg]
+    dsimp only
+    have t2 : TtlInv { s with store := s.store.del k,
+                              stats := { s.stats with keysDeleted := s.stats.keysDeleted + 1 },
+                              adm := { s.adm with kw := s.adm.kw.del e.id, used := s.adm.used - wk.weight } } :=
+      t'.uncharge hg rfl (by rw [hkey]) rfl rfl rfl rfl
+    cases hx : e.expiry with
+    | none =>
+      dsimp only [Exec.kill]
+      exact t2.frame (frame_of_ple rfl rfl rfl rfl rfl (PLe.refl _))
+    | some x =>
+      dsimp only [Exec.kill, ttlDelete]
+      refine t2.dropStale (AMap.noDup_del t'.noDup _) ?_ ?_ rfl rfl rfl rfl rfl
+      · intro a b h
+        rw [AMap.get?_del] at h
+        split at h
+        · cases h
+        · exact h
+      · intro sh i y h hnone
+        rw [AMap.get?_del] at hnone
+        split at hnone
+        · rename_i heq
+          simp only [Prod.mk.injEq] at heq
+          rw [← heq.2]
+          exact AMap.get?_del_same _ _
+        · rw [hnone] at h; cases h
+
+/-! ### one step of the worker -/
+
+theorem ttlinv_workerStep {s s' : State} {o o' : Oracle} {out : Out} (h : Inv s) (t : TtlInv s)
+    (hs : workerStep s o = .ok (s', out, o')) : TtlInv s' := by
+  unfold workerStep at hs
+  split at hs
+  · cases hs
+  · cases hs
+  · rename_i c hh q hw hq
+    simp only [Except.ok.injEq, Prod.mk.injEq] at hs
+    obtain ⟨rfl, _, _⟩ := hs
+    refine t.frame (frame_of_ple rfl rfl rfl rfl rfl ?_)
+    simp only [pendingCmds_eq, hq, List.map_cons, List.cons_append]
+    exact PLe.tail _ _
+  · rename_i cmd hh q hw hq
+    obtain ⟨hc, hp⟩ := inv_pop h hq
+    have hpos := hp.pos _ (List.mem_cons_self)
+    have hpc : pendingCmds s = cmd :: pendingCmds { s with queue := q } := by
+      simp only [pendingCmds_eq, hq, List.map_cons, List.cons_append]
+    have hle : PLe (pendingCmds { s with queue := q }) (pendingCmds s) := by rw [hpc]; exact PLe.tail _ _
+    have t0 : TtlInv { s with queue := q } := t.frame (frame_of_ple rfl rfl rfl rfl rfl hle)
+    have hnd : s.worker ≠ .dead := by rw [hw]; intro hd; cases hd
+    dsimp only at hs
+    split at hs
+    · -- shutdown
+      simp only [Except.ok.injEq, Prod.mk.injEq] at hs
+      obtain ⟨rfl, _, _⟩ := hs
+      exact t.frame (frame_of_ple rfl rfl rfl rfl rfl hle)
+    · -- put
+      rename_i id hash w k v
+      split at hs
+      · rename_i r hr
+        obtain ⟨ex, o1⟩ := r
+        have hno : ∀ sh x, s.ttl.get? (sh, id) ≠ some x := by
+          intro sh x hg
+          refine t.notPending sh id x hg ?_
+          show id ∈ ids (pendingCmds s)
+          rw [hpc, ids_cons, ids_single_of_some (id := id) rfl]
+          simp
+        have hk := ttlinv_workerPut hc hp rfl hpos hnd t0 hno hr
+        cases ex with
+        | done s1 st ie pp ev =>
+          simp only [Except.ok.injEq, Prod.mk.injEq] at hs
+          obtain ⟨rfl, _, _⟩ := hs
+          exact hk.frame (frame_of_ple rfl rfl rfl rfl rfl (PLe.refl _))
+        | panicked s1 p =>
+          simp only [Except.ok.injEq, Prod.mk.injEq] at hs
+          obtain ⟨rfl, _, _⟩ := hs
+          exact hk
+      · cases hs
+    · -- putTtl
+      rename_i id hash w k v ttl
+      split at hs
+      · rename_i r hr
+        obtain ⟨ex, o1⟩ := r
+        have hno : ∀ sh x, s.ttl.get? (sh, id) ≠ some x := by
+          intro sh x hg
+          refine t.notPending sh id x hg ?_
+          show id ∈ ids (pendingCmds s)
+          rw [hpc, ids_cons, ids_single_of_some (id := id) rfl]
+          simp
+        have hk := ttlinv_workerPut hc hp rfl hpos hnd t0 hno hr
+        cases ex with
+        | done s1 st ie pp ev =>
+          simp only [Except.ok.injEq, Prod.mk.injEq] at hs
+          obtain ⟨rfl, _, _⟩ := hs
+          exact hk.frame (frame_of_ple rfl rfl rfl rfl rfl (PLe.refl _))
+        | panicked s1 p =>
+          simp only [Except.ok.injEq, Prod.mk.injEq] at hs
+          obtain ⟨rfl, _, _⟩ := hs
+          exact hk
+      · cases hs
+    · -- updateWeight
+      rename_i id w
+      have hk := ttlinv_workerUpdateWeight (s := { s with queue := q }) t rfl rfl rfl rfl rfl hle id w
+      split at hs
+      · rename_i s1 st ie pp ev o1 heq
+        simp only [Prod.mk.injEq] at heq
+        simp only [Except.ok.injEq, Prod.mk.injEq] at hs
+        obtain ⟨rfl, _, _⟩ := hs
+        rw [heq.1] at hk
+        exact hk.frame (frame_of_ple rfl rfl rfl rfl rfl (PLe.refl _))
+      · rename_i s1 p o1 heq
+        simp only [Prod.mk.injEq] at heq
+        simp only [Except.ok.injEq, Prod.mk.injEq] at hs
+        obtain ⟨rfl, _, _⟩ := hs
+        rw [heq.1] at hk
+        exact hk
+    · -- delete
+      rename_i k
+      have hk := ttlinv_workerDelete (s := { s with queue := q }) t rfl rfl rfl rfl rfl hle k
+      split at hs
+      · rename_i s1 st ie pp ev o1 heq
+        simp only [Prod.mk.injEq] at heq
+        simp only [Except.ok.injEq, Prod.mk.injEq] at hs
+        obtain ⟨rfl, _, _⟩ := hs
+        rw [heq.1] at hk
+        exact hk.frame (frame_of_ple rfl rfl rfl rfl rfl (PLe.refl _))
+      · rename_i s1 p o1 heq
+        simp only [Prod.mk.injEq] at heq
+        simp only [Except.ok.injEq, Prod.mk.injEq] at hs
+        obtain ⟨rfl, _, _⟩ := hs
+        rw [heq.1] at hk
+        exact hk
+
+/-! ### initial state, every event, every reachable state -/
+
+theorem ttlinv_init (cfg : Cfg) (now : Nat) (seeds : List Nat) : TtlInv (State.init cfg now seeds) := by
+  refine ⟨AMap.noDup_nil, ?_, ?_, ?_, ?_, ?_, HeldW.nil, ?_⟩
+  · intro sh id x h; simp [State.init] at h
+  · intro sh id x h; simp [State.init] at h
+  · intro k e x h; simp [State.init] at h
+  · intro sh sh' id x x' h; simp [State.init] at h
+  · intro sh id x h; simp [State.init] at h
+  · intro sh id x h; simp [State.init] at h
+
+/-- **Every event preserves the invariant of the expiry index.** -/
+theorem ttlinv_step {s s' : State} {ev : Ev} {o o' : Oracle} {out : Out} (h : Inv s) (t : TtlInv s)
+    (hs : step s ev o = .ok (s', out, o')) : TtlInv s' := by
+  unfold step at hs
+  cases ev with
+  | put c k v =>
+    simp only [Except.ok.injEq, Prod.mk.injEq] at hs; obtain ⟨rfl, _, _⟩ := hs
+    exact t.frame (frame_clientPut s c k v)
+  | putW c k v w =>
+    simp only [Except.ok.injEq, Prod.mk.injEq] at hs; obtain ⟨rfl, _, _⟩ := hs
+    exact t.frame (frame_clientPutW s c k v w)
+  | putTtl c k v tt =>
+    simp only [Except.ok.injEq, Prod.mk.injEq] at hs; obtain ⟨rfl, _, _⟩ := hs
+    exact t.frame (frame_clientPutTtl s c k v tt)
+  | putWTtl c k v w tt =>
+    simp only [Except.ok.injEq, Prod.mk.injEq] at hs; obtain ⟨rfl, _, _⟩ := hs
+    exact t.frame (frame_clientPutWTtl s c k v w tt)
+  | upsert c k v w tt rm =>
+    simp only [Except.ok.injEq, Prod.mk.injEq] at hs; obtain ⟨rfl, _, _⟩ := hs
+    exact ttlinv_clientUpsert h t c k v w tt rm
+  | delete c k =>
+    simp only [Except.ok.injEq, Prod.mk.injEq] at hs; obtain ⟨rfl, _, _⟩ := hs
+    exact ttlinv_clientDelete h t c k
+  | get k => exact t.frame (frame_clientGet hs)
+  | multiGet ks => exact t.frame (frame_clientMultiGet hs)
+  | weight => simp only [Except.ok.injEq, Prod.mk.injEq] at hs; obtain ⟨rfl, _, _⟩ := hs; exact t
+  | stats => simp only [Except.ok.injEq, Prod.mk.injEq] at hs; obtain ⟨rfl, _, _⟩ := hs; exact t
+  | worker => exact ttlinv_workerStep h t hs
+  | sweep =>
+    dsimp only at hs
+    split at hs
+    · rename_i r hr
+      simp only [Except.ok.injEq, Prod.mk.injEq] at hs; obtain ⟨rfl, _, _⟩ := hs
+      exact ttlinv_sweepStep t (out := r.2) hr
+    · cases hs
+  | consumer => exact t.frame (frame_consumerStep hs)
+  | advance d =>
+    simp only [Except.ok.injEq, Prod.mk.injEq] at hs; obtain ⟨rfl, _, _⟩ := hs
+    exact t.frame ⟨rfl, rfl, rfl, rfl, Nat.le_refl _, fun _ h => Or.inl h⟩
+  | shutdown c =>
+    simp only [Except.ok.injEq, Prod.mk.injEq] at hs; obtain ⟨rfl, _, _⟩ := hs
+    exact ttlinv_clientShutdown t c
+  | resume c =>
+    dsimp only at hs
+    split at hs
+    · rename_i r hr
+      simp only [Except.ok.injEq, Prod.mk.injEq] at hs; obtain ⟨rfl, _, _⟩ := hs
+      exact ttlinv_resume t (out := r.2) hr
+    · cases hs
+  | poll hh =>
+    dsimp only at hs
+    split at hs
+    · simp only [Except.ok.injEq, Prod.mk.injEq] at hs; obtain ⟨rfl, _, _⟩ := hs; exact t
+    · cases hs
+
+theorem ttlinv_reach {cfg : Cfg} {now : Nat} {seeds : List Nat} {s : State} (h : Reach cfg now seeds s) : TtlInv s := by
+  induction h with
+  | init => exact ttlinv_init cfg now seeds
+  | step hr hs ih => exact ttlinv_step (inv_reach hr) ih hs
+
+/-! ### how one key's entry and the pending ids evolve in one event (for C04) -/
+
+/-- How the entry of key `k` may change in one event: not at all; it disappears; it is rewritten in place (same id,
+    a set soft-delete flag stays set); or the key was absent and gets a fresh entry whose id was pending. -/
+def KeyEvo (s s' : State) (k : Nat) : Prop :=
+  s'.store.get? k = s.store.get? k ∨ s'.store.get? k = none ∨
+  (∃ e e', s.store.get? k = some e ∧ s'.store.get? k = some e' ∧ e'.id = e.id ∧ (e.soft = true → e'.soft = true)) ∨
+  (s.store.get? k = none ∧ ∃ e', s'.store.get? k = some e' ∧ e'.id ∈ pendingIds s ∧ e'.soft = false)
+
+structure Evo (s s' : State) (k : Nat) : Prop where
+  nextId : s.nextId ≤ s'.nextId
+  pend : ∀ id ∈ pendingIds s', id ∈ pendingIds s ∨ s.nextId ≤ id
+  key : KeyEvo s s' k
+
+theorem Evo.of_frame {s s' : State} (f : Frame s s') (k : Nat) : Evo s s' k :=
+  ⟨f.nextId, f.pend, Or.inl (by rw [f.store])⟩
+
+theorem Evo.right {s m s' : State} {k : Nat} (e : Evo s m k) (hstore : s'.store = m.store)
+    (hn : m.nextId ≤ s'.nextId) (hp : ∀ id ∈ pendingIds s', id ∈ pendingIds m ∨ m.nextId ≤ id) : Evo s s' k := by
+  refine ⟨Nat.le_trans e.nextId hn, ?_, ?_⟩
+  · intro id hm
+    rcases hp id hm with h | h
+    · exact e.pend id h
+    · exact Or.inr (Nat.le_trans e.nextId h)
+  · unfold KeyEvo
+    rw [hstore]
+    exact e.key
+
+theorem Evo.frame_right {s m s' : State} {k : Nat} (e : Evo s m k) (f : Frame m s') : Evo s s' k :=
+  e.right f.store f.nextId f.pend
+
+/-- the tail of `shutdown()`: the store is emptied -/
+theorem evo_shutdownFinish {s m : State} (f : Frame s m) (k : Nat) : Evo s (shutdownFinish m) k :=
+  ⟨f.nextId, f.pend, Or.inr (Or.inl rfl)⟩
+
+theorem evo_shutdownSendBuf {s m : State} (f : Frame s m) (c k : Nat) : Evo s (shutdownSendBuf m c).1 k := by
+  unfold shutdownSendBuf
+  split
+  · exact evo_shutdownFinish f k
+  · split
+    · refine Evo.of_frame (f.trans (frame_of_ple (s := m) (s' := { m with pend := m.pend.set c .shutdownBuf })
+        rfl rfl rfl rfl rfl ?_)) k
+      simp only [pendingCmds_eq, pendCmds_set_shutdownBuf]
+      exact PLe.append (PLe.refl _) (PLe_pendCmds_del _ _)
+    · exact evo_shutdownFinish (m := { m with bufq := m.bufq ++ [.shutdown] })
+        (f.trans (frame_of_ple rfl rfl rfl rfl rfl (PLe.refl _))) k
+
+theorem evo_shutdownSendCmd {s m : State} (f : Frame s m) (c k : Nat) : Evo s (shutdownSendCmd m c).1 k := by
+  unfold shutdownSendCmd
+  split
+  · exact evo_shutdownSendBuf f c k
+  · split
+    · refine Evo.of_frame (f.trans (frame_of_ple (s := m) (s' := { m with pend := m.pend.set c .shutdownCmd })
+        rfl rfl rfl rfl rfl ?_)) k
+      simp only [pendingCmds_eq, pendCmds_set_shutdownCmd]
+      exact PLe.append (PLe.refl _) (PLe_pendCmds_del _ _)
+    · refine evo_shutdownSendBuf (f.trans ?_) c k
+      refine ⟨rfl, rfl, rfl, rfl, Nat.le_refl _, ?_⟩
+      intro id hm
+      have hle : PLe (pendingCmds { m with queue := m.queue ++ [(Cmd.shutdown, none)] }) (Cmd.shutdown :: pendingCmds m) := by
+        simp only [pendingCmds_eq, List.map_append, List.map_cons, List.map_nil]
+        exact PLe.snoc_mid _ _ _
+      rcases mem_ids_cons (mem_ids_of_PLe hle hm) with h | h
+      · cases h
+      · exact Or.inl h
+
+theorem evo_clientShutdown (s : State) (c k : Nat) : Evo s (clientShutdown s c).1 k := by
+  unfold clientShutdown
+  split
+  · exact Evo.of_frame (Frame.refl _) k
+  · have f : Frame s { s with shutting := true } := ⟨rfl, rfl, rfl, rfl, Nat.le_refl _, fun _ h => Or.inl h⟩
+    exact evo_shutdownSendCmd f c k
+
+theorem evo_resume {s s' : State} {out : Out} {c : Nat} (hr : resume s c = .ok (s', out)) (k : Nat) : Evo s s' k := by
+  unfold resume at hr
+  split at hr
+  · cases hr
+  · rename_i p hg
+    have f0 : Frame s { s with pend := s.pend.del c } := by
+      refine frame_of_ple rfl rfl rfl rfl rfl ?_
+      simp only [pendingCmds_eq]
+      exact PLe.append (PLe.refl _) (PLe_pendCmds_del _ _)
+    dsimp only at hr
+    split at hr
+    · rename_i cmd
+      split at hr
+      · cases hr
+      · simp only [Except.ok.injEq] at hr
+        have e : s' = (sendCmd { s with pend := s.pend.del c } c cmd).1 := by rw [hr]
+        rw [e]
+        obtain ⟨e1, e2, e3, e4, e5, _, _⟩ := sendCmd_fields { s with pend := s.pend.del c } c cmd
+        refine Evo.of_frame (frame_of_ple (s := s) e1 e2 e3 e4 e5 ?_) k
+        refine PLe.trans (ple_sendCmd _ c cmd) ?_
+        simp only [pendingCmds_eq]
+        exact PLe.trans (PLe.mid' _ _ _) (PLe.append (PLe.refl _) (PLe_pendCmds_del_get hg))
+    · split at hr
+      · cases hr
+      · simp only [Except.ok.injEq] at hr
+        have e : s' = (shutdownSendCmd { s with pend := s.pend.del c } c).1 := by rw [hr]
+        rw [e]
+        exact evo_shutdownSendCmd f0 c k
+    · split at hr
+      · cases hr
+      · simp only [Except.ok.injEq] at hr
+        have e : s' = (shutdownSendBuf { s with pend := s.pend.del c } c).1 := by rw [hr]
+        rw [e]
+        exact evo_shutdownSendBuf f0 c k
+
+/-- rewriting the entry of `k0` in place -/
+theorem evo_touch (s : State) {k0 : Nat} {e e' : Entry} (hg : s.store.get? k0 = some e) (hid : e'.id = e.id)
+    (hsoft : e.soft = true → e'.soft = true) (k : Nat) : Evo s { s with store := s.store.set k0 e' } k := by
+  refine ⟨Nat.le_refl _, fun _ h => Or.inl h, ?_⟩
+  by_cases hk : k0 = k
+  · subst hk
+    exact Or.inr (Or.inr (Or.inl ⟨e, e', hg, by simp, hid, hsoft⟩))
+  · exact Or.inl (AMap.get?_set_other _ _ hk)
+
+theorem evo_clientDelete (s : State) (c k0 k : Nat) : Evo s (clientDelete s c k0).1 k := by
+  unfold clientDelete
+  split
+  · exact Evo.of_frame (Frame.refl _) k
+  · dsimp only
+    split
+    · rename_i e hg
+      exact (evo_touch s hg (e' := { e with soft := true }) rfl (fun _ => rfl) k).frame_right
+        (frame_sendCmd (Frame.refl _) c _ (by intro id hh; cases hh))
+    · exact Evo.of_frame (frame_sendCmd (Frame.refl _) c _ (by intro id hh; cases hh)) k
+
+theorem frame_upsert_tail (s2 : State) (uw2 : Option Int) (c id : Nat) :
+    Frame s2 (match uw2 with
+          | some weight =>
+            if (!inI64 weight) = true then (s2, Out.panic Panic.weightOverflow)
+            else
+              if weight ≤ 0 then (s2, Out.panic Panic.weightNotPositive)
+              else sendCmd s2 c (Cmd.updateWeight id weight)
+          | none => spotAck s2 Status.accepted).1 := by
+  split
+  · split
+    · exact Frame.refl _
+    · split
+      · exact Frame.refl _
+      · exact frame_sendCmd (Frame.refl _) c _ (by intro i hh; cases hh)
+  · exact frame_spotAck _ _
+
+theorem evo_clientUpsert (s : State) (c k0 : Nat) (v : Option Nat) (w : Option Int) (ttl : Option Nat) (rm : Bool)
+    (k : Nat) : Evo s (clientUpsert s c k0 v w ttl rm).1 k := by
+  unfold clientUpsert
+  split
+  · exact Evo.of_frame (Frame.refl _) k
+  · extract_lets uw
+    clear_value uw
+    split
+    · split
+      · split
+        · exact Evo.of_frame (Frame.refl _) k
+        · split
+          · exact Evo.of_frame (frame_sendCmd (frame_bump s) c _
+              (by intro id hh; simp only [Cmd.putId?, Option.some.injEq] at hh; omega)) k
+          · exact Evo.of_frame (frame_sendCmd (frame_bump s) c _
+              (by intro id hh; simp only [Cmd.putId?, Option.some.injEq] at hh; omega)) k
+      · exact Evo.of_frame (Frame.refl _) k
+    · rename_i e hg
+      extract_lets newExp
+      clear_value newExp
+      split
+      · exact Evo.of_frame (Frame.refl _) k
+      · rename_i ne
+        extract_lets e' s1 existing
+        clear_value existing
+        have ev1 : Evo s s1 k := evo_touch s hg (e' := e') rfl (fun h => h) k
+        split
+        rename_i s2 uw2 hpair
+        refine Evo.frame_right ?_ (frame_upsert_tail s2 uw2 c _)
+        split at hpair <;> cases hpair
+        · exact ev1.right rfl (Nat.le_refl _) (fun _ h => Or.inl h)
+        · exact ev1.right rfl (Nat.le_refl _) (fun _ h => Or.inl h)
+        · exact ev1.right rfl (Nat.le_refl _) (fun _ h => Or.inl h)
+        · exact ev1
+
+theorem keyEvo_delKeys {s s' : State} {k : Nat} {ks : List Nat} (h : s'.store = AMap.delKeys s.store ks) :
+    KeyEvo s s' k := by
+  unfold KeyEvo
+  rw [h, AMap.get?_delKeys]
+  by_cases hk : k ∈ ks
+  · exact Or.inr (Or.inl (by simp [hk]))
+  · exact Or.inl (by simp [hk])
+
+theorem keyEvo_del {s s' : State} {k k0 : Nat} (h : s'.store = s.store.del k0) : KeyEvo s s' k :=
+  keyEvo_delKeys (ks := [k0]) (by rw [h]; rfl)
+
+/-- the shapes of the store after the worker executed a put -/
+theorem workerPut_shape {s : State} {id hash : Nat} {w : Int} {k v : Nat} {ttl : Option Nat} {o o' : Oracle}
+    {ex : Exec} (h : workerPut s id hash w k v ttl o = .ok (ex, o')) :
+    ex.kill.nextId = s.nextId ∧ PLe (pendingCmds ex.kill) (pendingCmds s) ∧
+    (ex.kill.store = s.store ∨
+     (s.store.get? k = none ∧ ∃ evKeys, ex.kill.store = AMap.delKeys s.store evKeys ∨
+        ∃ entry : Entry, entry.id = id ∧ entry.soft = false ∧
+          ex.kill.store = (AMap.delKeys s.store evKeys).set k entry)) := by
+  unfold workerPut at h
+  split at h
+  · simp only [Except.ok.injEq, Prod.mk.injEq] at h
+    obtain ⟨rfl, _⟩ := h
+    exact ⟨rfl, PLe.refl _, Or.inl rfl⟩
+  · rename_i hcont
+    have hk : s.store.get? k = none := by
+      simp only [AMap.contains] at hcont
+      cases hg : s.store.get? k with
+      | none => rfl
+      | some x => simp [hg] at hcont
+    split at h
+    · cases h
+    · rename_i r hm
+      obtain ⟨f1, f2, f3, f4, f5, f6, f7⟩ := foldl_applyEvict r.evicted { s with adm := r.adm }
+      have hple : PLe (pendingCmds (r.evicted.foldl applyEvict { s with adm := r.adm })) (pendingCmds s) := by
+        simp only [pendingCmds, f6, f7]; exact PLe.refl _
+      dsimp only at h
+      split at h
+      · split at h
+        · simp only [Except.ok.injEq, Prod.mk.injEq] at h
+          obtain ⟨rfl, _⟩ := h
+          refine ⟨f3, hple, Or.inr ⟨hk, r.evicted.map (·.2.1), Or.inr ⟨{ value := v, id := id, expiry := none, soft := false }, rfl, rfl, ?_⟩⟩⟩
+          simp only [Exec.kill, f1]
+        · split at h
+          · simp only [Except.ok.injEq, Prod.mk.injEq] at h
+            obtain ⟨rfl, _⟩ := h
+            refine ⟨f3, ?_, Or.inr ⟨hk, r.evicted.map (·.2.1), Or.inl (by simp only [Exec.kill, f1])⟩⟩
+            simp only [pendingCmds, Exec.kill, f7, List.map_nil, List.nil_append]
+            exact PLe.right _ _
+          · rename_i e _
+            simp only [Except.ok.injEq, Prod.mk.injEq] at h
+            obtain ⟨rfl, _⟩ := h
+            refine ⟨f3, hple, Or.inr ⟨hk, r.evicted.map (·.2.1), Or.inr ⟨{ value := v, id := id, expiry := some e, soft := false }, rfl, rfl, ?_⟩⟩⟩
+            simp only [Exec.kill, ttlPut, f1]
+      · simp only [Except.ok.injEq, Prod.mk.injEq] at h
+        obtain ⟨rfl, _⟩ := h
+        exact ⟨f3, hple, Or.inr ⟨hk, r.evicted.map (·.2.1), Or.inl (by simp only [Exec.kill, f1])⟩⟩
+
+theorem workerUpdateWeight_shape (s : State) (id : Nat) (w : Int) :
+    (workerUpdateWeight s id w).kill.nextId = s.nextId ∧
+    PLe (pendingCmds (workerUpdateWeight s id w).kill) (pendingCmds s) ∧
+    (workerUpdateWeight s id w).kill.store = s.store := by
+  unfold workerUpdateWeight
+  split
+  · exact ⟨rfl, PLe.refl _, rfl⟩
+  · dsimp only
+    split
+    · refine ⟨rfl, ?_, rfl⟩
+      simp only [pendingCmds, Exec.kill, List.map_nil, List.nil_append]
+      exact PLe.right _ _
+    · exact ⟨rfl, PLe.refl _, rfl⟩
+
+theorem workerDelete_shape (s : State) (k : Nat) :
+    (workerDelete s k).kill.nextId = s.nextId ∧ pendingCmds (workerDelete s k).kill = pendingCmds s ∧
+    ((workerDelete s k).kill.store = s.store ∨ (workerDelete s k).kill.store = s.store.del k) := by
+  unfold workerDelete
+  split
+  · exact ⟨rfl, rfl, Or.inl rfl⟩
+  · rename_i e he
+    dsimp only
+    cases hg : s.adm.kw.get? e.id with
+    | none =>
+      rw [Adm.delete_none hg]
+      dsimp only
+      cases e.expiry <;> exact ⟨rfl, rfl, Or.inr rfl⟩
+    | some wk =>
+      rw [Adm.delete_some hg]
+      dsimp only
+      cases e.expiry <;> exact ⟨rfl, rfl, Or.inr rfl⟩
+
+theorem evo_workerStep {s s' : State} {o o' : Oracle} {out : Out} (hs : workerStep s o = .ok (s', out, o')) (k : Nat) :
+    Evo s s' k := by
+  unfold workerStep at hs
+  split at hs
+  · cases hs
+  · cases hs
+  · rename_i c hh q hw hq
+    simp only [Except.ok.injEq, Prod.mk.injEq] at hs
+    obtain ⟨rfl, _, _⟩ := hs
+    refine Evo.of_frame ?_ k
+    refine frame_of_ple rfl rfl rfl rfl rfl ?_
+    simp only [pendingCmds_eq, hq, List.map_cons, List.cons_append]
+    exact PLe.tail _ _
+  · rename_i cmd hh q hw hq
+    have hpc : pendingCmds s = cmd :: pendingCmds { s with queue := q } := by
+      simp only [pendingCmds_eq, hq, List.map_cons, List.cons_append]
+    have hle : PLe (pendingCmds { s with queue := q }) (pendingCmds s) := by rw [hpc]; exact PLe.tail _ _
+    have mk : ∀ {s1 : State}, s1.nextId = s.nextId → PLe (pendingCmds s1) (pendingCmds { s with queue := q }) →
+        KeyEvo s s1 k → Evo s s1 k := by
+      intro s1 h1 h2 h3
+      exact ⟨Nat.le_of_eq h1.symm, fun id hm => Or.inl (mem_ids_of_PLe (PLe.trans h2 hle) hm), h3⟩
+    have putCase : ∀ {id hash : Nat} {w : Int} {k0 v : Nat} {ttl : Option Nat} {ex : Exec} {o1 : Oracle},
+        cmd.putId? = some id → workerPut { s with queue := q } id hash w k0 v ttl o = .ok (ex, o1) →
+        Evo s ex.kill k := by
+      intro id hash w k0 v ttl ex o1 hcid hr
+      obtain ⟨a1, a2, a3⟩ := workerPut_shape hr
+      refine mk a1 a2 ?_
+      rcases a3 with a3 | ⟨hk0, evKeys, a3 | ⟨entry, hent, hsoft, a3⟩⟩
+      · exact Or.inl (by rw [a3])
+      · exact keyEvo_delKeys a3
+      · by_cases hk : k0 = k
+        · subst hk
+          refine Or.inr (Or.inr (Or.inr ⟨hk0, entry, by rw [a3]; simp, ?_, hsoft⟩))
+          show entry.id ∈ ids (pendingCmds s)
+          rw [hent, hpc, ids_cons, ids_single_of_some hcid]
+          simp
+        · have : KeyEvo s { s with store := AMap.delKeys s.store evKeys } k := keyEvo_delKeys rfl
+          unfold KeyEvo at this ⊢
+          rw [a3, AMap.get?_set_other _ _ hk]
+          exact this
+    dsimp only at hs
+    split at hs
+    · -- shutdown
+      simp only [Except.ok.injEq, Prod.mk.injEq] at hs
+      obtain ⟨rfl, _, _⟩ := hs
+      refine Evo.of_frame ?_ k
+      exact frame_of_ple rfl rfl rfl rfl rfl hle
+    · -- put
+      split at hs
+      · rename_i r hr
+        obtain ⟨ex, o1⟩ := r
+        have hk := putCase rfl hr
+        cases ex with
+        | done s1 st ie pp ev =>
+          simp only [Except.ok.injEq, Prod.mk.injEq] at hs
+          obtain ⟨rfl, _, _⟩ := hs
+          exact hk.right rfl (Nat.le_refl _) (fun _ h => Or.inl h)
+        | panicked s1 p =>
+          simp only [Except.ok.injEq, Prod.mk.injEq] at hs
+          obtain ⟨rfl, _, _⟩ := hs
+          exact hk
+      · cases hs
+    · -- putTtl
+      split at hs
+      · rename_i r hr
+        obtain ⟨ex, o1⟩ := r
+        have hk := putCase rfl hr
+        cases ex with
+        | done s1 st ie pp ev =>
+          simp only [Except.ok.injEq, Prod.mk.injEq] at hs
+          obtain ⟨rfl, _, _⟩ := hs
+          exact hk.right rfl (Nat.le_refl _) (fun _ h => Or.inl h)
+        | panicked s1 p =>
+          simp only [Except.ok.injEq, Prod.mk.injEq] at hs
+          obtain ⟨rfl, _, _⟩ := hs
+          exact hk
+      · cases hs
+    · -- updateWeight
+      rename_i id w
+      obtain ⟨a1, a2, a3⟩ := workerUpdateWeight_shape { s with queue := q } id w
+      have hk : Evo s (workerUpdateWeight { s with queue := q } id w).kill k := mk a1 a2 (Or.inl (by rw [a3]))
+      split at hs
+      · rename_i s1 st ie pp ev o1 heq
+        simp only [Prod.mk.injEq] at heq
+        simp only [Except.ok.injEq, Prod.mk.injEq] at hs
+        obtain ⟨rfl, _, _⟩ := hs
+        rw [heq.1] at hk
+        exact hk.right rfl (Nat.le_refl _) (fun _ h => Or.inl h)
+      · rename_i s1 p o1 heq
+        simp only [Prod.mk.injEq] at heq
+        simp only [Except.ok.injEq, Prod.mk.injEq] at hs
+        obtain ⟨rfl, _, _⟩ := hs
+        rw [heq.1] at hk
+        exact hk
+    · -- delete
+      rename_i k0
+      obtain ⟨a1, a2, a3⟩ := workerDelete_shape { s with queue := q } k0
+      have hk : Evo s (workerDelete { s with queue := q } k0).kill k := by
+        refine mk a1 (by rw [a2]; exact PLe.refl _) ?_
+        rcases a3 with a3 | a3
+        · exact Or.inl (by rw [a3])
+        · exact keyEvo_del a3
+      split at hs
+      · rename_i s1 st ie pp ev o1 heq
+        simp only [Prod.mk.injEq] at heq
+        simp only [Except.ok.injEq, Prod.mk.injEq] at hs
+        obtain ⟨rfl, _, _⟩ := hs
+        rw [heq.1] at hk
+        exact hk.right rfl (Nat.le_refl _) (fun _ h => Or.inl h)
+      · rename_i s1 p o1 heq
+        simp only [Prod.mk.injEq] at heq
+        simp only [Except.ok.injEq, Prod.mk.injEq] at hs
+        obtain ⟨rfl, _, _⟩ := hs
+        rw [heq.1] at hk
+        exact hk
+
+theorem evo_sweepStep {s s' : State} {out : Out} (hs : sweepStep s = .ok (s', out)) (k : Nat) : Evo s s' k := by
+  obtain ⟨ev, rfl⟩ := sweepStep_out hs
+  obtain ⟨_, _, rfl⟩ := sweepStep_eq hs
+  obtain ⟨evNew, _, sp⟩ := sweepEntries_spec (s.ttl.filter (due s)) s []
+  refine ⟨Nat.le_of_eq sp.nextId.symm, ?_, keyEvo_delKeys sp.store⟩
+  intro id hm
+  left
+  have : pendingIds (sweepEntries s (s.ttl.filter (due s)) []).1 = pendingIds s := pendingIds_congr sp.queue sp.pend
+  rw [← this]
+  exact hm
+
+/-- **One event, one key**: `nextId` only grows, a put that is pending afterwards was pending before or carries
+    a new id, and the key's entry changes in one of the four ways of `KeyEvo`. -/
+theorem evo_step {s s' : State} {ev : Ev} {o o' : Oracle} {out : Out} (hs : step s ev o = .ok (s', out, o'))
+    (k : Nat) : Evo s s' k := by
+  unfold step at hs
+  cases ev with
+  | put c k0 v =>
+    simp only [Except.ok.injEq, Prod.mk.injEq] at hs; obtain ⟨rfl, _, _⟩ := hs
+    exact Evo.of_frame (frame_clientPut s c k0 v) k
+  | putW c k0 v w =>
+    simp only [Except.ok.injEq, Prod.mk.injEq] at hs; obtain ⟨rfl, _, _⟩ := hs
+    exact Evo.of_frame (frame_clientPutW s c k0 v w) k
+  | putTtl c k0 v tt =>
+    simp only [Except.ok.injEq, Prod.mk.injEq] at hs; obtain ⟨rfl, _, _⟩ := hs
+    exact Evo.of_frame (frame_clientPutTtl s c k0 v tt) k
+  | putWTtl c k0 v w tt =>
+    simp only [Except.ok.injEq, Prod.mk.injEq] at hs; obtain ⟨rfl, _, _⟩ := hs
+    exact Evo.of_frame (frame_clientPutWTtl s c k0 v w tt) k
+  | upsert c k0 v w tt rm =>
+    simp only [Except.ok.injEq, Prod.mk.injEq] at hs; obtain ⟨rfl, _, _⟩ := hs
+    exact evo_clientUpsert s c k0 v w tt rm k
+  | delete c k0 =>
+    simp only [Except.ok.injEq, Prod.mk.injEq] at hs; obtain ⟨rfl, _, _⟩ := hs
+    exact evo_clientDelete s c k0 k
+  | get k0 => exact Evo.of_frame (frame_clientGet hs) k
+  | multiGet ks => exact Evo.of_frame (frame_clientMultiGet hs) k
+  | weight =>
+    simp only [Except.ok.injEq, Prod.mk.injEq] at hs; obtain ⟨rfl, _, _⟩ := hs; exact Evo.of_frame (Frame.refl _) k
+  | stats =>
+    simp only [Except.ok.injEq, Prod.mk.injEq] at hs; obtain ⟨rfl, _, _⟩ := hs; exact Evo.of_frame (Frame.refl _) k
+  | worker => exact evo_workerStep hs k
+  | sweep =>
+    dsimp only at hs
+    split at hs
+    · rename_i r hr
+      simp only [Except.ok.injEq, Prod.mk.injEq] at hs; obtain ⟨rfl, _, _⟩ := hs
+      exact evo_sweepStep (out := r.2) hr k
+    · cases hs
+  | consumer => exact Evo.of_frame (frame_consumerStep hs) k
+  | advance d =>
+    simp only [Except.ok.injEq, Prod.mk.injEq] at hs; obtain ⟨rfl, _, _⟩ := hs
+    refine Evo.of_frame ?_ k
+    exact ⟨rfl, rfl, rfl, rfl, Nat.le_refl _, fun _ h => Or.inl h⟩
+  | shutdown c =>
+    simp only [Except.ok.injEq, Prod.mk.injEq] at hs; obtain ⟨rfl, _, _⟩ := hs
+    exact evo_clientShutdown s c k
+  | resume c =>
+    dsimp only at hs
+    split at hs
+    · rename_i r hr
+      simp only [Except.ok.injEq, Prod.mk.injEq] at hs; obtain ⟨rfl, _, _⟩ := hs
+      exact evo_resume (out := r.2) hr k
+    · cases hs
+  | poll hh =>
+    dsimp only at hs
+    split at hs
+    · simp only [Except.ok.injEq, Prod.mk.injEq] at hs; obtain ⟨rfl, _, _⟩ := hs
+      exact Evo.of_frame (Frame.refl _) k
+    · cases hs
+
+/-- a sweep whose due entries are all stale evicts nothing and changes nothing (before the index is filtered) -/
+theorem sweepEntries_all_stale : ∀ (l : List ((Nat × Nat) × Nat)) (s : State) (acc : List Evicted),
+    (∀ p ∈ l, s.adm.kw.get? p.1.2 = none) → sweepEntries s l acc = (s, acc.reverse) := by
+  intro l
+  induction l with
+  | nil => intro s acc _; rfl
+  | cons p rest ih =>
+    intro s acc h
+    obtain ⟨⟨sh, id⟩, x⟩ := p
+    simp only [sweepEntries]
+    rw [sweepEvict_none (h ((sh, id), x) List.mem_cons_self)]
+    exact ih s acc (fun p hp => h p (List.mem_cons_of_mem _ hp))
+
+/-- One sweep in terms of `SweepSpec`: the state before the index is filtered is `s1`. -/
+theorem sweepStep_spec {s s' : State} {ev : List Evicted} (hs : sweepStep s = .ok (s', .swept ev)) :
+    ∃ s1, SweepSpec s (s.ttl.filter (due s)) s1 ev ∧ s'.store = s1.store ∧ s'.adm = s1.adm ∧
+      s'.ttl = s.ttl.filter (fun p => !due s p) ∧ s'.now = s.now ∧ s'.cfg = s.cfg := by
+  obtain ⟨_, hev, rfl⟩ := sweepStep_eq hs
+  obtain ⟨evNew, he, sp⟩ := sweepEntries_spec (s.ttl.filter (due s)) s []
+  simp only [List.reverse_nil, List.nil_append] at he
+  rw [← he] at sp
+  rw [← hev] at sp
+  exact ⟨_, sp, rfl, rfl, by simp only [sp.ttl], sp.now, sp.cfg⟩
+
+/-- the ids of the due entries -/
+theorem mem_dueIds {s : State} (hn : AMap.NoDup s.ttl) (i : Nat) :
+    i ∈ (s.ttl.filter (due s)).map (·.1.2) ↔ ∃ sh x, s.ttl.get? (sh, i) = some x ∧ due s ((sh, i), x) = true := by
+  constructor
+  · intro h
+    obtain ⟨p, hp, hi⟩ := List.mem_map.mp h
+    obtain ⟨⟨sh, j⟩, x⟩ := p
+    simp only at hi
+    subst hi
+    obtain ⟨h1, h2⟩ := List.mem_filter.mp hp
+    exact ⟨sh, x, AMap.get?_of_mem hn h1, h2⟩
+  · intro ⟨sh, x, h1, h2⟩
+    exact List.mem_map.mpr ⟨((sh, i), x), List.mem_filter.mpr ⟨AMap.mem_of_get? h1, h2⟩, rfl⟩
+
+/-! ### a soft-deleted incarnation along a history (for C04) -/
+
+/-- what is carried along a history: the id is below `nextId`, not the id of a pending put, and an entry of `k`
+    with that id is flagged -/
+def Buried (i k : Nat) (s : State) : Prop :=
+  i < s.nextId ∧ i ∉ pendingIds s ∧ ∀ e', s.store.get? k = some e' → e'.id = i → e'.soft = true
+
+theorem buried_step {i k : Nat} {s s' : State} {ev : Ev} {o o' : Oracle} {out : Out}
+    (hs : step s ev o = .ok (s', out, o')) (b : Buried i k s) : Buried i k s' := by
+  obtain ⟨b1, b2, b3⟩ := b
+  have evo := evo_step hs k
+  refine ⟨Nat.lt_of_lt_of_le b1 evo.nextId, ?_, ?_⟩
+  · intro hm
+    rcases evo.pend i hm with h | h
+    · exact b2 h
+    · omega
+  · intro e' he' hid
+    rcases evo.key with h | h | ⟨e0, e1, h0, h1, h2, h3⟩ | ⟨h0, e1, h1, h2, _⟩
+    · rw [h] at he'; exact b3 e' he' hid
+    · rw [h] at he'; cases he'
+    · rw [h1] at he'
+      simp only [Option.some.injEq] at he'
+      subst he'
+      exact h3 (b3 e0 h0 (h2.symm.trans hid))
+    · rw [h1] at he'
+      simp only [Option.some.injEq] at he'
+      subst he'
+      rw [hid] at h2
+      exact absurd h2 b2
+
+theorem buried_run {i k : Nat} : ∀ (l : List (Ev × Oracle)) {s s' : State}, Buried i k s →
+    runEvents s l = .ok s' → Buried i k s' := by
+  intro l
+  induction l with
+  | nil => intro s s' b hr; simp only [runEvents, Except.ok.injEq] at hr; subst hr; exact b
+  | cons x l ih =>
+    intro s s' b hr
+    obtain ⟨ev, o⟩ := x
+    simp only [runEvents] at hr
+    split at hr
+    · rename_i s1 out o1 hs
+      exact ih (buried_step hs b) hr
+    · cases hr
 
 end Cached
